@@ -28,7 +28,7 @@
 From Coq Require Import NArith List Bool Permutation.
 From DvcData Require Import Base.Val Base.MD5 Base.Json Model.Listing Model.HashSched.
 From DvcData Require Import Proofs.ListingSort Proofs.ListingProofs Proofs.JsonProofs Proofs.ListingInj Proofs.HashSchedProofs.
-From DvcData Require Import Model.ListingHist Proofs.ListingHistProofs.
+From DvcData Require Import Model.ListingHist Proofs.ListingHistProofs Model.HashSchedPath Proofs.HashSchedPathProofs.
 Import ListNotations.
 Open Scope N_scope.
 
@@ -198,3 +198,20 @@ Theorem C03_schedule_walk : forall c c' dones dones' walk walk',
   build_oid c dones walk = build_oid c' dones' walk'.
 Proof. exact build_oid_schedule_walk. Qed.
 Print Assumptions C03_schedule_walk.
+
+(* ---- how the staged directory is spelled (Model/HashSchedPath.v: the key arithmetic of _build_tree) ---- *)
+Theorem C03_path_spelling : forall path n root,
+  rel_key_of (path ++ repeat slash n) root = rel_key_of path root.
+Proof. exact rel_key_trailing_sep. Qed.
+Print Assumptions C03_path_spelling.
+
+Theorem C03_rel_key : forall path k, key_ok k = true ->
+  rel_key_of path (rstrip_sep slash path ++ slash :: relpath k) = k.
+Proof. exact rel_key_of_join. Qed.
+Print Assumptions C03_rel_key.
+
+(* ---- Tree.digest(with_meta=...) : the flag selects the stored content, never the identifier ---- *)
+Theorem C03_digest_with_meta_flag : forall b t oid content,
+  digest_obj b t = Some (oid, content) -> oid = digest t.
+Proof. exact digest_obj_oid. Qed.
+Print Assumptions C03_digest_with_meta_flag.
